@@ -37,7 +37,8 @@ META = {
 }
 
 
-def h_alloc(ctx, nv, nres, ng, nl, alignment, second_chip, complete):
+def h_alloc(ctx, nv, nres, ng, nl, alignment, second_chip, complete,
+            exc_first=False):
     from rig.place_and_route.allocate.greedy import allocate
     from rig.place_and_route import Machine, Cores, SDRAM
     from rig.place_and_route.constraints import (
@@ -58,7 +59,11 @@ def h_alloc(ctx, nv, nres, ng, nl, alignment, second_chip, complete):
     placements = {v: chipA for v in vertices}
     if second_chip:
         vertices.append("w")
-        placements["w"] = chipB
+        if exc_first:
+            # the chip with the resource exception is allocated first
+            placements = dict([("w", chipB)] + list(placements.items()))
+        else:
+            placements["w"] = chipB
     vr = {}
     for v in vertices:
         vr[v] = {r: ctx.int("dem", 0) for r in resources}
@@ -167,13 +172,14 @@ def h_alloc(ctx, nv, nres, ng, nl, alignment, second_chip, complete):
 def units(tier, seed):
     us = []
 
-    def add(nv, nres, ng, nl, al, second, complete, **kw):
-        name = "alloc nv=%d nres=%d g=%d l=%d align=%d chips=%d%s" % (
+    def add(nv, nres, ng, nl, al, second, complete, exc_first=False, **kw):
+        name = "alloc nv=%d nres=%d g=%d l=%d align=%d chips=%d%s%s" % (
             nv, nres, ng, nl, al, 2 if second else 1,
-            " complete" if complete else "")
+            " complete" if complete else "",
+            " exception chip first" if exc_first else "")
         us.append(Unit(name, h_alloc, dict(
             nv=nv, nres=nres, ng=ng, nl=nl, alignment=al,
-            second_chip=second, complete=complete),
+            second_chip=second, complete=complete, exc_first=exc_first),
             witnesses=("allocated",), **kw))
 
     # soundness units
@@ -193,6 +199,10 @@ def units(tier, seed):
     # the chip allocated after it
     add(1, 1, 1, 1, 1, True, True, split=4)
     add(2, 1, 1, 1, 1, True, True, split=5)
+    # ... and with the exceptional chip allocated before the ordinary one
+    # (soundness: in range; completeness: no spurious failure)
+    add(1, 1, 1, 0, 1, True, False, exc_first=True, split=4)
+    add(1, 1, 1, 0, 1, True, True, exc_first=True, split=4)
     if tier == "thorough":
         for al in (2, 3, 4, 8):
             add(3, 1, 2, 0, al, False, False, split=6)
